@@ -15,6 +15,8 @@ import vlib
 from vlib import enc
 
 KF_NOCHECK = "lua-single-call-unchecked"
+KF_MIXRES = "lua-overloads-mixed-result"
+KF_STRBOOL = "lua-string-vs-bool-overload"
 
 TYPES = {          # name: (C++ param type, lua tag, printf fmt for the log, yaml decl type)
     "int": ("int", "N"), "long": ("long", "N"), "double": ("double", "N"), "bool": ("bool", "B"),
@@ -27,19 +29,22 @@ RET = {"void": None, "int": "N", "double": "N", "bool": "B", "string": "S"}
 def gen_library(rng, idx):
     """Returns a description: dict(funcs=[overload sets], cls=[...])  each function:
        dict(name, params=[(type, has_default)], ret, method=bool, ctor=bool)."""
-    def params(maxn):
+    def params(maxn, universe):
         n = rng.randint(0, maxn)
-        ps = [rng.choice(list(TYPES)) for _ in range(n)]
+        ps = [rng.choice(universe) for _ in range(n)]
         nd = rng.choice([0, 0, 1, 2]) if n else 0
         return [(t, i >= n - nd) for i, t in enumerate(ps)]
 
     def distinct_sigs(k, maxn):
+        # const char* -> bool beats const char* -> std::string in C++ overload resolution (known finding
+        # lua-string-vs-bool-overload, exercised by a fixed library): an overload set uses bool or string, not both
+        universe = rng.choice([["int", "long", "double", "bool"], ["int", "long", "double", "string"]]) if k > 1 else list(TYPES)
         sigs = []
         tries = 0
         while len(sigs) < k and tries < 50:
             tries += 1
-            p = params(maxn)
-            # C++ needs overloads that differ; keep arities / type lists distinct incl. default prefixes
+            p = params(maxn, universe)
+            # C++ needs overloads callable without ambiguity: all default-prefix type lists distinct
             keys = {tuple(t for t, _ in p[:m]) for m in range(len(p) - sum(1 for _, d in p if d), len(p) + 1)}
             if any(keys & s[1] for s in sigs):
                 continue
@@ -49,16 +54,32 @@ def gen_library(rng, idx):
     funcs = []
     for i in range(rng.randint(2, 4)):
         name = "fn%d" % i
-        for p in distinct_sigs(rng.choice([1, 1, 2, 3]), 3):
-            funcs.append(dict(name=name, params=p, ret=rng.choice(list(RET)), method=False, ctor=False))
+        # one value type per overload set (differing non-void result types do not compile: that is C05's concern);
+        # a void member may be mixed in (known finding lua-overloads-mixed-result)
+        rt = rng.choice(list(RET))
+        for j, p in enumerate(distinct_sigs(rng.choice([1, 1, 2, 3]), 3)):
+            # (a void member after a value-returning one does not compile: only the first may be void)
+            funcs.append(dict(name=name, params=p, ret=rt, method=False, ctor=False))
     cls = []
     for p in distinct_sigs(rng.choice([1, 2]), 2):
         cls.append(dict(name="Cls", params=p, ret=None, method=False, ctor=True))
     for i in range(rng.randint(1, 3)):
         name = "meth%d" % i
-        for p in distinct_sigs(rng.choice([1, 1, 2]), 3):
-            cls.append(dict(name=name, params=p, ret=rng.choice(list(RET)), method=True, ctor=False))
+        rt = rng.choice(list(RET))
+        for j, p in enumerate(distinct_sigs(rng.choice([1, 1, 2]), 3)):
+            cls.append(dict(name=name, params=p, ret=rt, method=True, ctor=False))
     return dict(funcs=funcs, cls=cls, idx=idx)
+
+
+def finding_libraries():
+    """fixed libraries that exhibit the recorded findings (run on every check)."""
+    mixed = dict(funcs=[dict(name="fm", params=[("int", False)], ret="void", method=False, ctor=False),
+                        dict(name="fm", params=[("string", False)], ret="string", method=False, ctor=False)],
+                 cls=[dict(name="Cls", params=[], ret=None, method=False, ctor=True)], idx=900)
+    strbool = dict(funcs=[dict(name="fs", params=[("int", False)], ret="int", method=False, ctor=False)],
+                   cls=[dict(name="Cls", params=[("string", True), ("bool", True)], ret=None, method=False, ctor=True),
+                        dict(name="Cls", params=[("bool", False)], ret=None, method=False, ctor=True)], idx=901)
+    return [mixed, strbool]
 
 
 DEFAULTS = {"int": "7", "long": "8", "double": "2.5", "bool": "true", "string": '"dflt"'}
@@ -98,7 +119,7 @@ def log_stmt(tag, ps):
 
 
 def write_library(lib, d):
-    hpp = ["#include <string>", "#include <cstdio>"]
+    hpp = ["#pragma once", "#include <string>", "#include <cstdio>"]
     cpp = ['#include "tlib.hpp"']
     ydecl = []
     for k, f in enumerate(lib["funcs"]):
@@ -138,6 +159,7 @@ DRIVER = r'''
 #include <cstring>
 #include <cstdlib>
 #include <string>
+#include "tlib.hpp"
 #include "luastub.h"
 #include "luatlibmodule.hpp"
 static sval objs[64]; static int nobjs = 0;
@@ -297,9 +319,9 @@ def run(ctx):
     ctx.prove(os.path.join(vlib.COQ, "Properties", "C18.v"))
     drv = ctx.driver()
     quick = ctx.tier == "quick"
-    nlibs = 6 if quick else 60
+    nlibs = 16 if quick else 120
     from concurrent.futures import ThreadPoolExecutor
-    libs = [gen_library(ctx.rng, i) for i in range(nlibs)]
+    libs = [gen_library(ctx.rng, i) for i in range(nlibs)] + finding_libraries()
 
     def one(lib):
         exe, err = build(ctx, lib, "L%d" % lib["idx"])
@@ -333,10 +355,14 @@ def run(ctx):
                     for _ in range(2):
                         stacks.add(tuple(sample_value(ctx.rng, TYPES[t][1]) for t, _ in f["params"][:n]))
                 # wrong type / wrong arity (only for dispatching wrappers; unchecked single wrappers would hit UB on NULL strings)
+                single = len(group) == 1 and not any(d for _, d in f["params"])
                 if f["params"]:
                     bad = [sample_value(ctx.rng, TYPES[t][1]) for t, _ in f["params"]]
                     k = ctx.rng.randrange(len(bad))
-                    bad[k] = sample_value(ctx.rng, ctx.rng.choice([x for x in "NBS" if x != TYPES[f["params"][k][0]][1]]))
+                    other = [x for x in "NBS" if x != TYPES[f["params"][k][0]][1]]
+                    if single and f["params"][k][0] == "string":
+                        other = ["N"]      # an unchecked wrapper would build std::string from NULL (undefined behaviour)
+                    bad[k] = sample_value(ctx.rng, ctx.rng.choice(other))
                     stacks.add(tuple(bad))
                 stacks.add(tuple(sample_value(ctx.rng, "N") for _ in range(len(f["params"]) + 1)))
             for st in sorted(stacks):
@@ -374,15 +400,18 @@ def run(ctx):
                 # result value: from the return type of the called overload
                 pass
             ok = (g2[:-1] == e2[:-1]) and g2[-1].split()[:2] == e2[-1].split()[:2]
-            if not ok:
+            # property oracle on the implementation: the C++ function selected by count and types receives the stack values
+            o = oracle(group, is_method, is_ctor, vals, got)
+            kf = classify(o) if o else None
+            explained = bool(kf and ctx.is_known(kf))
+            if not ok and not (explained and kf == KF_STRBOOL):
+                # (the string-vs-bool finding is decided by C++ overload resolution inside the selected branch,
+                #  outside the dispatch the model describes)
                 ctx.broken.append(("correspondence", "LuaDispatch.dispatch", "lib=%d fn=%s stack=%s got=%s model=%s" % (lib["idx"], name, vals, got, exp)))
                 if len(ctx.broken) <= 3:
                     ctx.say("DISAGREE fn=%s stack=%s\n  got  =%s\n  model=%s (%s)" % (name, vals, got, exp, m))
-            # property oracle on the implementation: the C++ function selected by count and types receives the stack values
-            o = oracle(group, is_method, is_ctor, vals, got)
             if o:
-                kf = classify(o)
-                if kf and ctx.is_known(kf):
+                if explained:
                     ctx.known_finding(kf, "")
                 else:
                     ctx.violation("failing-input", {"what": o["what"], "input": {"library_yaml": open(os.path.join(ctx.bdir, "lua", "L%d" % lib["idx"], "tlib.yaml")).read(),
@@ -413,13 +442,37 @@ def oracle(group, is_method, is_ctor, vals, got):
     if got[-1].startswith("ERR"):
         return {"what": "a matching call raised a Lua error: " + got[-1], "class": "error-on-match", "method": is_method}
     if exp not in got:
-        return {"what": "the library did not receive the supplied argument values: expected %r" % exp, "class": "wrong-values", "method": is_method}
+        # which overload was reached instead?
+        strbool = False
+        for l in got:
+            if l.startswith("LOG "):
+                tag = l.split()[1]
+                for g in group:
+                    if g["tag"] == tag and g is not f and len(g["params"]) >= len(user) and user:
+                        diff = [k for k in range(len(user)) if TYPES[g["params"][k][0]][1] != TYPES[f["params"][k][0]][1]]
+                        if diff and any(f["params"][k][0] == "string" and g["params"][k][0] == "bool" for k in diff):
+                            strbool = True
+        return {"what": "the library did not receive the supplied argument values: expected %r" % exp, "class": "wrong-values",
+                "method": is_method, "strbool": strbool}
+    want = 1 if (is_ctor or f["ret"] not in (None, "void")) else 0
+    have = int(got[-1].split()[1])
+    if have != want:
+        mixed = len({(g["ret"] in (None, "void")) for g in group}) > 1
+        return {"what": "wrong result count reported to Lua: %d instead of %d" % (have, want), "class": "result-count", "mixed": mixed}
+    if want and not is_ctor:
+        rv = {"int": "n41", "double": "n1.25", "bool": "b1", "string": "sres"}[f["ret"]]
+        if got[-1].split()[2:] != [rv]:
+            return {"what": "wrong result value pushed: %s instead of %s" % (got[-1], rv), "class": "result-value"}
     return None
 
 
 def classify(o):
     if o.get("class") == "no-error" and o.get("single"):
         return KF_NOCHECK
+    if o.get("class") == "result-count" and o.get("mixed"):
+        return KF_MIXRES
+    if o.get("class") == "wrong-values" and o.get("strbool"):
+        return KF_STRBOOL
     return None
 
 
